@@ -291,8 +291,40 @@ def received_call_is_dispatched(ctx, rule):
         raise AnalysisError('methodCallReceived: no path')
 
 
+def counts_from_their_signatures(ctx, rule):
+    """The reply is packaged by `nret` (one value or several) and calls are
+    checked against `nargs`: each count is computed from ITS signature -
+    nargs from sigIn (sig for a signal), nret from sigOut."""
+    prog = ctx.prog
+    n = 0
+    for meth, pairs in (('addMethod', {'nargs': 'sigIn', 'nret': 'sigOut'}),
+                        ('addSignal', {'nargs': 'sig'})):
+        fi = prog.func('interface.DBusInterface.' + meth)
+        m = ('param', fi.params()[1])
+        for p in Interp(prog, exc_edges=False).run(fi):
+            for ev in iter_events(p.trace):
+                if ev[0] != 'setattr' or ev[1] != m or ev[2] not in pairs:
+                    continue
+                n += 1
+                want = ('attr', m, pairs[ev[2]])
+                others = [('attr', m, a) for a in ('sigIn', 'sigOut', 'sig')
+                          if a != pairs[ev[2]]]
+                ok = contains(ev[3], lambda x: x == want) and not any(
+                    contains(ev[3], lambda x, o=o: x == o) for o in others)
+                ctx.ob(rule, fi.qualname, 'count-from-its-signature:%s'
+                       % ev[2], ok,
+                       '%s.%s is computed from %s; it counts the complete '
+                       'types of %s: the dispatcher wraps a returned list or '
+                       'tuple (or not) by the wrong number' % (
+                           meth, ev[2], term_str(ev[3])[:70], pairs[ev[2]]))
+    if n < 3:
+        raise AnalysisError('DBusInterface.addMethod/addSignal: the member '
+                            'counts are not computed there (anchor changed)')
+
+
 def run(ctx):
     received_call_is_dispatched(ctx, 'C10.D1')
+    counts_from_their_signatures(ctx, 'C10.D7')
     prog = ctx.prog
     fi = prog.func(Q)
     msg = ('param', fi.params()[1])
